@@ -252,6 +252,23 @@ func c16Opus(c *fw.Ctx, i int) {
 				}
 			}
 			c.Count("opus_repeat_and_feedback_calls", 1)
+			if i%8 == 3 {
+				// a run of short packets on the same instance (DTX / comfort noise): every one of them is forwarded
+				for q := 0; q < 30; q++ {
+					pl := r.Bytes(r.Pick(1, 1, 1, 2, 3))
+					var o [][]byte
+					if pv, st := fw.Guard(func() { o = p.Payload(mtu, pl) }); pv != nil {
+						c.Fail("C16/opus/payload-panics/"+fw.PanicFunc(st), fmt.Sprintf("OpusPayloader.Payload panicked in a run of short packets: %v", pv), fw.W("call", q, "stack", st))
+						return
+					}
+					c.Evals(1)
+					if len(o) != 1 || !bytes.Equal(o[0], pl) {
+						c.Fail("C16/opus/not-one-equal-fragment/in-a-run-of-short-packets", fmt.Sprintf("short packet %d of a run (%d bytes) came back as %d fragments", q, len(pl), len(o)), wit)
+						return
+					}
+				}
+				c.Count("opus_runs_of_short_packets", 1)
+			}
 		}
 		c.Shapef("opus-payload|len%s", lenClassS(len(in)))
 	} else {
